@@ -43,6 +43,9 @@ class Box(object):
 '''
 
 VARS = ['x', 'y', 'z']
+# opt-in program families: named explicitly by a stand-in's extra block, so that the default program streams of
+# every stand-in stay what they were
+OPT_IN = ('defret', 'outerraise', 'delitem', 'compshadow')
 
 
 class Gen(object):
@@ -60,10 +63,10 @@ class Gen(object):
     if self.features is None:
       # while/else, for/else: documented as unsupported; 'defret' (bodies that END in an unconditional return) is
       # opt-in so that the default program streams of every stand-in stay what they were
-      return feat not in ('loopelse', 'defret', 'outerraise')
-    if feat in ('defret', 'outerraise'):
+      return feat not in ('loopelse',) + OPT_IN
+    if feat in OPT_IN:
       return feat in self.features
-    if set(self.features) <= {'defret', 'outerraise'}:
+    if set(self.features) <= set(OPT_IN):
       return feat not in ('loopelse',)     # only opt-in families named: everything of the default space plus them
     return feat in self.features
 
@@ -87,6 +90,10 @@ class Gen(object):
     return self.tk()
 
   def expr(self, vars_, depth=0):
+    if self.on('compshadow') and vars_ and self.rnd.random() < 0.15:
+      # opt-in family: a comprehension whose target re-uses a variable that its own (outermost) iterable reads
+      v = self.rnd.choice(vars_)
+      return 'sum([%s + 1 for %s in [%s, %d]])' % (v, v, v, self.rnd.randint(0, 3))
     r = self.rnd.random()
     if depth > 1 or r < 0.3:
       return self.atom(vars_)
@@ -129,6 +136,9 @@ class Gen(object):
 
   # ------------------------------------------------------------------ statements
   def leaf(self, vars_, ind):
+    if self.on('delitem') and self.rnd.random() < 0.2:
+      # opt-in family: an element of the list parameter is deleted (the list itself is NOT rebound)
+      return ['%sa.append(%s)' % (ind, self.atom(vars_)), '%sdel a[0]' % ind], []
     r = self.rnd.random()
     v = self.rnd.choice(VARS)
     if r < 0.35:
